@@ -30,6 +30,10 @@ type Outcome struct {
 	// NonTrivial overrides the default non-triviality rule (a contended decision switched tasks or a
 	// fault fired) for harnesses whose environment knob is not the schedule.
 	NonTrivial *bool
+	// Evals: number of executions this outcome stands for (a crash-point sweep runs many); 0 = 1.
+	Evals int
+	// CaseHashes: distinct non-trivial sub-cases explored (hashed together with the workload).
+	CaseHashes []uint64
 }
 
 // Harness describes one property check.
@@ -63,6 +67,7 @@ type Summary struct {
 	Property     string         `json:"property"`
 	Seed         uint64         `json:"seed"`
 	Runs         int            `json:"runs"`
+	Evals        int64          `json:"evals"`
 	Steps        int64          `json:"steps"`
 	Switches     int64          `json:"switches"`
 	Contended    int64          `json:"contended"`
@@ -240,6 +245,7 @@ func batch[W any](t *testing.T, h Harness[W]) {
 		cfg := pickConfig(r, rs)
 		o := execOne(t, h, w, cfg)
 		sum.Runs++
+		sum.Evals += int64(max(1, o.Evals))
 		sum.LastIndex = idx
 		if hashLog != nil {
 			fmt.Fprintf(hashLog, "%d %016x %d %d %q %v\n", idx, o.Res.TraceHash, o.Res.Steps, len(o.Res.Choices), o.Class, o.Res.Faults)
@@ -271,13 +277,19 @@ func batch[W any](t *testing.T, h Harness[W]) {
 		if nontrivial {
 			sum.NonTrivial++
 			wj, _ := json.Marshal(w)
-			hh := fnv.New64a()
-			hh.Write(wj)
-			var b [8]byte
-			binary.LittleEndian.PutUint64(b[:], o.Res.TraceHash)
-			hh.Write(b[:])
-			if len(hashes) < hashCap {
-				hashes[hh.Sum64()] = struct{}{}
+			cases := o.CaseHashes
+			if cases == nil {
+				cases = []uint64{o.Res.TraceHash}
+			}
+			for _, ch := range cases {
+				hh := fnv.New64a()
+				hh.Write(wj)
+				var b [8]byte
+				binary.LittleEndian.PutUint64(b[:], ch)
+				hh.Write(b[:])
+				if len(hashes) < hashCap {
+					hashes[hh.Sum64()] = struct{}{}
+				}
 			}
 		}
 		if len(sum.Samples) < 2 && o.Class == "" && nontrivial {
